@@ -9,3 +9,7 @@ REG['C20'] = check_c20.run
 from . import check_sinks
 REG['C13'] = check_sinks.run
 REG['C14'] = check_sinks.run
+
+from . import check_queue
+for _p in check_queue.PROPS:
+    REG[_p] = check_queue.run
